@@ -121,7 +121,7 @@ func c16Run(tb drv.TB, rec *drv.Rec, sub string, c c16Case) {
 			rec.Violation(tb, sub, "c16-not-aliased-"+v.name, c, "Frame.%s() does not point at buffer offset %d (it points at offset %d from the buffer start)", v.name, v.off, int64(ptr)-int64(base))
 			return
 		}
-		if v.off+len(v.v) > n {
+		if v.off+len(v.v) > n || (v.name == "Ether" && len(v.v) != n) {
 			rec.Violation(tb, sub, "c16-beyond-frame-"+v.name, c, "Frame.%s() spans %d..%d, the frame is %d bytes", v.name, v.off, v.off+len(v.v), n)
 			return
 		}
@@ -171,7 +171,16 @@ func TestC16(t *testing.T) {
 	drv.Prop(t, rec, "frames", 3000, 60000, func(t *rapid.T) c16Case {
 		f := w.Frame(nil).Draw(t, "frame")
 		sit := rapid.SampledFrom(c16Situations).Draw(t, "situation")
-		return c16Case{Data: c16Apply(w, f.Bytes, sit), Situation: sit}
+		b := c16Apply(w, f.Bytes, sit)
+		// a UDP length field that disagrees with the bytes present does not make Parse reject the frame: the views must still end with the frame
+		if d := ref.Decode(b); d.OffUDP > 0 && !d.Err && rapid.IntRange(0, 3).Draw(t, "udplen") == 0 {
+			ul := len(b) - d.OffUDP
+			v := rapid.SampledFrom([]int{ul + 1, ul + 7, ul + 8, ul + 64, ul + 300, 0xffff, ul - 1, 8, 0}).Draw(t, "udplenv")
+			if v >= 0 && v <= 0xffff {
+				b[d.OffUDP+4], b[d.OffUDP+5] = byte(v>>8), byte(v)
+			}
+		}
+		return c16Case{Data: b, Situation: sit}
 	}, func(tb drv.TB, c c16Case) { c16Run(tb, rec, "frames", c) })
 	// every UDP port class explicitly (a regression in one switch case must not hide behind the class mix)
 	ports := gen.InterestingPorts
